@@ -1,73 +1,101 @@
 import ScrapliModel.Regex.Lemmas
 /-
-  Emptiness by certificate.  A certificate for `r` is a finite set `S` of regexes containing `r`,
-  none of them nullable, closed under `derivN c` for the byte-class representatives `reps`, together
-  with a list `A` of class bitmaps such that every bitmap occurring in a state is in `A` and every
-  byte 0..255 has the same membership signature over `A` as some representative.  The checker
-  VERIFIES all of this (in particular the coverage of the alphabet); nothing about how the
-  certificate was computed is trusted.
+  Emptiness by certificate.  A certificate for `r` is a finite list `S` of regexes (in chunks of
+  32) whose first element is `r`, none of them nullable, together with, for every state, a row
+  `[c₀, cl₀, j₀, c₁, cl₁, j₁, …]`: byte classes `clₖ` (256-bit bitmaps) with a representative
+  `cₖ ∈ clₖ` and the index `jₖ` of the state that is (structurally, `RE.beq`) the derivative by `cₖ`.
+  The checker VERIFIES, per state, that the classes cover all 256 bytes and that every class is
+  either inside or disjoint from every class bitmap occurring in the state (so all bytes of a class
+  have the same derivative — `derivN_congr`).  Nothing about how the certificate was computed is
+  trusted; a representative list that does not cover the alphabet is rejected.
 -/
 namespace Scrapli.Regex
 open RE
 
-/-- every class bitmap occurring in the regex is in the list `A` -/
-def atomsIn (A : List Nat) : RE → Bool
+/-- bytes `c`, `c'` are members of exactly the same class bitmaps occurring in the regex -/
+def agreeOn (c c' : Nat) : RE → Bool
   | emp => true
   | eps => true
-  | cls bm => A.any (fun x => Nat.beq bm x)
-  | cat a b => atomsIn A a && atomsIn A b
-  | alt a b => atomsIn A a && atomsIn A b
-  | RE.and a b => atomsIn A a && atomsIn A b
-  | RE.not a => atomsIn A a
-  | star a => atomsIn A a
-  | rep a _ _ => atomsIn A a
+  | cls bm => bm.testBit c == bm.testBit c'
+  | cat a b => agreeOn c c' a && agreeOn c c' b
+  | alt a b => agreeOn c c' a && agreeOn c c' b
+  | RE.and a b => agreeOn c c' a && agreeOn c c' b
+  | RE.not a => agreeOn c c' a
+  | star a => agreeOn c c' a
+  | rep a _ _ => agreeOn c c' a
 
-/-- bytes `c`, `c'` are members of exactly the same bitmaps of `A` -/
-def sameSig (A : List Nat) (c c' : Nat) : Bool :=
-  A.all (fun bm => bm.testBit c == bm.testBit c')
-
-/-- alphabet compression: bytes with the same signature over the atoms of `r` have the same derivative -/
-theorem derivN_congr (A : List Nat) (r : RE) (c c' : Nat)
-    (hA : atomsIn A r = true) (hs : sameSig A c c' = true) : derivN c r = derivN c' r := by
+/-- alphabet compression: bytes that agree on every class bitmap of `r` have the same derivative -/
+theorem derivN_congr (r : RE) (c c' : Nat) (h : agreeOn c c' r = true) : derivN c r = derivN c' r := by
   induction r with
   | emp => rfl
   | eps => rfl
   | cls bm =>
-    simp only [atomsIn, List.any_eq_true] at hA
-    obtain ⟨x, hx, hbx⟩ := hA
-    have hbx : bm = x := Nat.eq_of_beq_eq_true hbx
-    subst hbx
-    simp only [sameSig, List.all_eq_true] at hs
-    have := hs bm hx
-    simp only [beq_iff_eq] at this
-    simp only [derivN, this]
+    simp only [agreeOn, beq_iff_eq] at h
+    simp only [derivN, h]
   | cat a b iha ihb =>
-    simp only [atomsIn, Bool.and_eq_true] at hA
-    simp only [derivN, iha hA.1, ihb hA.2]
+    simp only [agreeOn, Bool.and_eq_true] at h
+    simp only [derivN, iha h.1, ihb h.2]
   | alt a b iha ihb =>
-    simp only [atomsIn, Bool.and_eq_true] at hA
-    simp only [derivN, iha hA.1, ihb hA.2]
+    simp only [agreeOn, Bool.and_eq_true] at h
+    simp only [derivN, iha h.1, ihb h.2]
   | and a b iha ihb =>
-    simp only [atomsIn, Bool.and_eq_true] at hA
-    simp only [derivN, iha hA.1, ihb hA.2]
+    simp only [agreeOn, Bool.and_eq_true] at h
+    simp only [derivN, iha h.1, ihb h.2]
   | not a iha =>
-    simp only [atomsIn] at hA
-    simp only [derivN, iha hA]
+    simp only [agreeOn] at h
+    simp only [derivN, iha h]
   | star a iha =>
-    simp only [atomsIn] at hA
-    simp only [derivN, iha hA]
+    simp only [agreeOn] at h
+    simp only [derivN, iha h]
   | rep a m n iha =>
-    simp only [atomsIn] at hA
-    simp only [derivN, iha hA]
+    simp only [agreeOn] at h
+    simp only [derivN, iha h]
 
-/-- every byte has a representative with the same signature -/
-def cover (A reps : List Nat) : Bool :=
-  (List.range 256).all (fun b => reps.any (fun c => sameSig A b c))
+/-- the byte class `cl` is inside or disjoint from every class bitmap occurring in the regex -/
+def classOK (cl : Nat) : RE → Bool
+  | emp => true
+  | eps => true
+  | cls bm => Nat.beq (cl &&& bm) 0 || Nat.beq (cl &&& bm) cl
+  | cat a b => classOK cl a && classOK cl b
+  | alt a b => classOK cl a && classOK cl b
+  | RE.and a b => classOK cl a && classOK cl b
+  | RE.not a => classOK cl a
+  | star a => classOK cl a
+  | rep a _ _ => classOK cl a
 
-theorem cover_spec {A reps : List Nat} (h : cover A reps = true) (b : Nat) (hb : b < 256) :
-    ∃ c, c ∈ reps ∧ sameSig A b c = true := by
-  simp only [cover, List.all_eq_true, List.any_eq_true] at h
-  exact h b (List.mem_range.2 hb)
+theorem agree_of_classOK (cl : Nat) (r : RE) (b c : Nat) (h : classOK cl r = true)
+    (hb : cl.testBit b = true) (hc : cl.testBit c = true) : agreeOn b c r = true := by
+  induction r with
+  | emp => rfl
+  | eps => rfl
+  | cls bm =>
+    simp only [classOK, Bool.or_eq_true] at h
+    simp only [agreeOn, beq_iff_eq]
+    rcases h with h | h
+    · have h0 : cl &&& bm = 0 := Nat.eq_of_beq_eq_true h
+      have e1 : (cl &&& bm).testBit b = false := by rw [h0]; exact Nat.zero_testBit b
+      have e2 : (cl &&& bm).testBit c = false := by rw [h0]; exact Nat.zero_testBit c
+      rw [Nat.testBit_and, hb, Bool.true_and] at e1
+      rw [Nat.testBit_and, hc, Bool.true_and] at e2
+      rw [e1, e2]
+    · have h0 : cl &&& bm = cl := Nat.eq_of_beq_eq_true h
+      have e1 : (cl &&& bm).testBit b = true := by rw [h0]; exact hb
+      have e2 : (cl &&& bm).testBit c = true := by rw [h0]; exact hc
+      rw [Nat.testBit_and, hb, Bool.true_and] at e1
+      rw [Nat.testBit_and, hc, Bool.true_and] at e2
+      rw [e1, e2]
+  | cat a b iha ihb =>
+    simp only [classOK, Bool.and_eq_true] at h
+    simp only [agreeOn, Bool.and_eq_true]; exact ⟨iha h.1, ihb h.2⟩
+  | alt a b iha ihb =>
+    simp only [classOK, Bool.and_eq_true] at h
+    simp only [agreeOn, Bool.and_eq_true]; exact ⟨iha h.1, ihb h.2⟩
+  | and a b iha ihb =>
+    simp only [classOK, Bool.and_eq_true] at h
+    simp only [agreeOn, Bool.and_eq_true]; exact ⟨iha h.1, ihb h.2⟩
+  | not a iha => simp only [classOK] at h; simp only [agreeOn]; exact iha h
+  | star a iha => simp only [classOK] at h; simp only [agreeOn]; exact iha h
+  | rep a m n iha => simp only [classOK] at h; simp only [agreeOn]; exact iha h
 
 def nth {α : Type} : List α → Nat → Option α
   | [], _ => none
@@ -96,42 +124,68 @@ theorem lookup_mem {S : List (List RE)} {j : Nat} {s : RE} (h : lookup S j = som
     exact List.mem_flatten.2 ⟨ch, nth_mem hch, nth_mem h⟩
   · cases h
 
-/-- the derivative of `r` by each representative `c` is (structurally) the state the row names -/
-def checkRow (S : List (List RE)) (r : RE) : List Nat → List Nat → Bool
-  | [], [] => true
-  | c :: cs, j :: js =>
+/-- union of the class bitmaps of a row `[c, cl, j, c, cl, j, …]` -/
+def rowCover : List Nat → Nat
+  | _ :: cl :: _ :: rest => cl ||| rowCover rest
+  | _ => 0
+
+/-- for every triple `c, cl, j` of the row: `c ∈ cl`, `cl` is compatible with the class bitmaps of
+    `r`, and the derivative of `r` by `c` is (structurally) state `j` -/
+def checkRow (S : List (List RE)) (r : RE) : List Nat → Bool
+  | [] => true
+  | c :: cl :: j :: rest =>
+    cl.testBit c && classOK cl r &&
     (match lookup S j with
      | some s => RE.beq (derivN c r) s
-     | none => false) && checkRow S r cs js
-  | _, _ => false
+     | none => false) && checkRow S r rest
+  | _ => false
 
-theorem checkRow_spec {S : List (List RE)} {r : RE} {reps row : List Nat}
-    (h : checkRow S r reps row = true) : ∀ c ∈ reps, derivN c r ∈ S.flatten := by
-  induction reps generalizing row with
-  | nil => intro c hc; cases hc
-  | cons c cs ih =>
-    cases row with
-    | nil => simp [checkRow] at h
-    | cons j js =>
-      simp only [checkRow, Bool.and_eq_true] at h
-      obtain ⟨h1, h2⟩ := h
-      intro c' hc'
-      rcases List.mem_cons.1 hc' with e | e
-      · subst e
-        split at h1
-        · rename_i s hs
-          rw [RE.beq_eq h1]; exact lookup_mem hs
-        · cases h1
-      · exact ih h2 c' e
+theorem checkRow_spec {S : List (List RE)} {r : RE} : ∀ (row : List Nat) (b : Nat),
+    checkRow S r row = true → (rowCover row).testBit b = true → derivN b r ∈ S.flatten
+  | [], b, _, hb => by simp [rowCover] at hb
+  | [_], b, h, _ => by simp [checkRow] at h
+  | [_, _], b, h, _ => by simp [checkRow] at h
+  | c :: cl :: j :: rest, b, h, hb => by
+    simp only [checkRow, Bool.and_eq_true] at h
+    obtain ⟨⟨⟨h1, h2⟩, h3⟩, h4⟩ := h
+    simp only [rowCover, Nat.testBit_or, Bool.or_eq_true] at hb
+    rcases hb with hb | hb
+    · rw [derivN_congr r b c (agree_of_classOK cl r b c h2 hb h1)]
+      split at h3
+      · rename_i s hs
+        rw [RE.beq_eq h3]; exact lookup_mem hs
+      · cases h3
+    · exact checkRow_spec rest b h4 hb
 
-def checkChunk (S : List (List RE)) (reps : List Nat) : List RE → List (List Nat) → Bool
+def bmFull256 : Nat := 115792089237316195423570985008687907853269984665640564039457584007913129639935
+
+theorem bmFull256_testBit (b : Nat) (hb : b < 256) : bmFull256.testBit b = true := by
+  have : bmFull256 = 2 ^ 256 - 1 := by decide
+  rw [this, Nat.testBit_two_pow_sub_one]
+  simpa using hb
+
+def checkState (S : List (List RE)) (r : RE) (row : List Nat) : Bool :=
+  !nullable r && Nat.beq (rowCover row) bmFull256 && checkRow S r row
+
+theorem checkState_spec {S : List (List RE)} {r : RE} {row : List Nat}
+    (h : checkState S r row = true) :
+    nullable r = false ∧ ∀ b, b < 256 → derivN b r ∈ S.flatten := by
+  simp only [checkState, Bool.and_eq_true] at h
+  obtain ⟨⟨h1, h2⟩, h3⟩ := h
+  refine ⟨?_, ?_⟩
+  · cases hn : nullable r <;> simp [hn] at h1 ⊢
+  · intro b hb
+    have hc : rowCover row = bmFull256 := Nat.eq_of_beq_eq_true h2
+    exact checkRow_spec row b h3 (by rw [hc]; exact bmFull256_testBit b hb)
+
+def checkChunk (S : List (List RE)) : List RE → List (List Nat) → Bool
   | [], [] => true
-  | r :: rs, row :: rows => !nullable r && checkRow S r reps row && checkChunk S reps rs rows
+  | r :: rs, row :: rows => checkState S r row && checkChunk S rs rows
   | _, _ => false
 
-theorem checkChunk_spec {S : List (List RE)} {reps : List Nat} {Sl : List RE} {rows : List (List Nat)}
-    (h : checkChunk S reps Sl rows = true) :
-    ∀ r ∈ Sl, nullable r = false ∧ ∀ c ∈ reps, derivN c r ∈ S.flatten := by
+theorem checkChunk_spec {S : List (List RE)} {Sl : List RE} {rows : List (List Nat)}
+    (h : checkChunk S Sl rows = true) :
+    ∀ r ∈ Sl, nullable r = false ∧ ∀ b, b < 256 → derivN b r ∈ S.flatten := by
   induction Sl generalizing rows with
   | nil => intro r hr; cases hr
   | cons r rs ih =>
@@ -139,22 +193,19 @@ theorem checkChunk_spec {S : List (List RE)} {reps : List Nat} {Sl : List RE} {r
     | nil => simp [checkChunk] at h
     | cons row rows =>
       simp only [checkChunk, Bool.and_eq_true] at h
-      obtain ⟨⟨h1, h2⟩, h3⟩ := h
       intro r' hr'
       rcases List.mem_cons.1 hr' with e | e
-      · subst e
-        refine ⟨?_, checkRow_spec h2⟩
-        cases hn : nullable r' <;> simp [hn] at h1 ⊢
-      · exact ih h3 r' e
+      · subst e; exact checkState_spec h.1
+      · exact ih h.2 r' e
 
-def checkChunks (S : List (List RE)) (reps : List Nat) : List (List RE) → List (List (List Nat)) → Bool
+def checkChunks (S : List (List RE)) : List (List RE) → List (List (List Nat)) → Bool
   | [], [] => true
-  | ch :: chs, rows :: tbl => checkChunk S reps ch rows && checkChunks S reps chs tbl
+  | ch :: chs, rows :: tbl => checkChunk S ch rows && checkChunks S chs tbl
   | _, _ => false
 
-theorem checkChunks_spec {S : List (List RE)} {reps : List Nat} {Sl : List (List RE)}
-    {tbl : List (List (List Nat))} (h : checkChunks S reps Sl tbl = true) :
-    ∀ r ∈ Sl.flatten, nullable r = false ∧ ∀ c ∈ reps, derivN c r ∈ S.flatten := by
+theorem checkChunks_spec {S : List (List RE)} {Sl : List (List RE)}
+    {tbl : List (List (List Nat))} (h : checkChunks S Sl tbl = true) :
+    ∀ r ∈ Sl.flatten, nullable r = false ∧ ∀ b, b < 256 → derivN b r ∈ S.flatten := by
   induction Sl generalizing tbl with
   | nil => intro r hr; simp at hr
   | cons ch chs ih =>
@@ -168,20 +219,12 @@ theorem checkChunks_spec {S : List (List RE)} {reps : List Nat} {Sl : List (List
       · exact checkChunk_spec h.1 r e
       · exact ih h.2 r e
 
-/-- `A`: atom bitmaps, `reps`: class representatives, `S`: states in chunks, `tbl`: for each state the
-    indices (into the flattened `S`) of its derivatives by each representative, chunked like `S` -/
-def checkCert (A reps : List Nat) (S : List (List RE)) (tbl : List (List (List Nat))) : Bool :=
-  cover A reps && S.all (fun ch => ch.all (atomsIn A)) && checkChunks S reps S tbl
+/-- `S`: states in chunks, `tbl`: one row per state, chunked like `S` -/
+def checkCert (S : List (List RE)) (tbl : List (List (List Nat))) : Bool := checkChunks S S tbl
 
-theorem checkCert_sound {A reps : List Nat} {S : List (List RE)} {tbl : List (List (List Nat))}
-    (h : checkCert A reps S tbl = true) {r : RE} (hr : r ∈ S.flatten) : ∀ w, ¬ Lang r w := by
-  simp only [checkCert, Bool.and_eq_true] at h
-  obtain ⟨⟨hc, ha⟩, hrows⟩ := h
-  have hspec := checkChunks_spec hrows
-  have hatoms : ∀ r ∈ S.flatten, atomsIn A r = true := by
-    intro r hr
-    obtain ⟨ch, hch, hrch⟩ := List.mem_flatten.1 hr
-    exact (List.all_eq_true.1 ((List.all_eq_true.1 ha) ch hch)) r hrch
+theorem checkCert_sound {S : List (List RE)} {tbl : List (List (List Nat))}
+    (h : checkCert S tbl = true) {r : RE} (hr : r ∈ S.flatten) : ∀ w, ¬ Lang r w := by
+  have hspec := checkChunks_spec h
   intro w
   induction w generalizing r with
   | nil =>
@@ -194,18 +237,16 @@ theorem checkCert_sound {A reps : List Nat} {S : List (List RE)} {tbl : List (Li
     have hl' : Lang (derivN c.toNat r) w := (derivN_iff c r w).2 hl
     have hlt : c.toNat < 256 := by
       have := c.toNat_lt; omega
-    obtain ⟨c', hc', hs⟩ := cover_spec hc c.toNat hlt
-    rw [derivN_congr A r c.toNat c' (hatoms r hr) hs] at hl'
-    exact ih ((hspec r hr).2 c' hc') hl'
+    exact ih ((hspec r hr).2 c.toNat hlt) hl'
 
 /-- certificate check for a regex given by name: the first state must be (structurally) `r` -/
-def checkCertFor (r : RE) (A reps : List Nat) (S : List (List RE)) (tbl : List (List (List Nat))) : Bool :=
+def checkCertFor (r : RE) (S : List (List RE)) (tbl : List (List (List Nat))) : Bool :=
   (match S with
    | (s0 :: _) :: _ => RE.beq r s0
-   | _ => false) && checkCert A reps S tbl
+   | _ => false) && checkCert S tbl
 
-theorem empty_of_cert {r : RE} {A reps : List Nat} {S : List (List RE)} {tbl : List (List (List Nat))}
-    (h : checkCertFor r A reps S tbl = true) : ∀ w, ¬ Lang r w := by
+theorem empty_of_cert {r : RE} {S : List (List RE)} {tbl : List (List (List Nat))}
+    (h : checkCertFor r S tbl = true) : ∀ w, ¬ Lang r w := by
   simp only [checkCertFor, Bool.and_eq_true] at h
   obtain ⟨h0, hc⟩ := h
   split at h0
@@ -230,11 +271,5 @@ theorem disj_of_empty {a b : RE} (h : ∀ w, ¬ Lang (RE.and a b) w) :
 /-- a machine-checked witness refutes emptiness -/
 theorem nonempty_of_witness {r : RE} {w : Word} (h : rmatch r w = true) : ¬ ∀ w, ¬ Lang r w :=
   fun hall => hall w ((rmatch_iff r w).1 h)
-
-/-! language-level reading of the building blocks used by the obligations -/
-
-theorem Lang_and (a b : RE) (w : Word) : Lang (RE.and a b) w ↔ Lang a w ∧ Lang b w := Iff.rfl
-theorem Lang_not (a : RE) (w : Word) : Lang (RE.not a) w ↔ ¬ Lang a w := Iff.rfl
-theorem Lang_alt (a b : RE) (w : Word) : Lang (RE.alt a b) w ↔ Lang a w ∨ Lang b w := Iff.rfl
 
 end Scrapli.Regex
